@@ -35,6 +35,21 @@ Theorem C08_mdp_complete : forall (mp : str -> str -> str) (secret : str) (d r :
 Proof. exact mdp_complete. Qed.
 Print Assumptions C08_mdp_complete.
 
+(* the same, read off the function: under each key of the argument the result holds
+   - for a mapping value: what the function returns for that mapping (whatever the key);
+   - for a non-mapping value under a secret str key: the mask;
+   - for any other str value: mask_password of it;  - for anything else: the value itself *)
+Theorem C08_entry_rules : forall (mp : str -> str -> str) (secret : str) kd items k v,
+  wf (VMap kd items) = true -> In (k, v) items ->
+  exists out v',
+    mdp mp secret (VMap kd items) = Ok (VMap dict_kind out) /\ In (k, v') out /\
+    (is_mapping v = true -> mdp mp secret v = Ok v') /\
+    (is_mapping v = false -> secret_key k = true -> v' = VStr secret) /\
+    (secret_key k = false -> forall s, v = VStr s -> v' = VStr (mp s secret)) /\
+    (secret_key k = false -> forall t, v = VOther t -> v' = VOther t).
+Proof. exact entry_rules. Qed.
+Print Assumptions C08_entry_rules.
+
 (* same keys, in the same order, at every level; every container of the result is a dict *)
 Theorem C08_keys_preserved_at_every_level : forall (mp : str -> str -> str) (secret : str) (d r : value),
   wf d = true -> mdp mp secret d = Ok r -> skel r = skel d /\ all_dict r = true.
